@@ -45,14 +45,14 @@ def cases(tier, seed):
                 k += 1
                 outbufs.append(b)
                 conns[o] = b
-        yield {"f": "add_subcircuit", "parent": parent, "child": child, "name": rng.choice(["s", "u0", "i0"]),
+        yield {"f": "add_subcircuit", "parent": parent, "child": child, "name": rng.choice(["s", "u0", "i0", "core.u0", "a.b"]),
                "conns": conns, "outbufs": outbufs, "twice": rng.random() < 0.3}
     for i in range(n):
         child = gen.random_circuit(rng, n_in=rng.randint(1, 3), n_gates=rng.randint(1, 3), max_fanin=3, p_const=0.2,
                                    n_bb=rng.choice([0, 0, 1]), p_out=0.0, name="impl")
         # exactly the gate sinks are outputs; make sure >=1 output that is not an input
         parent = gen.random_circuit(rng, n_in=rng.randint(1, 3), n_gates=rng.randint(1, 3), max_fanin=2, p_out=0.4)
-        yield {"f": "fill_blackbox", "parent": parent, "child": child, "name": rng.choice(["u", "ff0"]),
+        yield {"f": "fill_blackbox", "parent": parent, "child": child, "name": rng.choice(["u", "ff0", "core.u0", "x.y.z"]),
                "salt": i, "open_in": rng.random() < 0.2, "open_out": rng.random() < 0.3}
     for i in range(n):
         pins_sets = rng.choice([(["d", "clk"], ["q"]), (["CK", "GCK", "D"], ["Q", "QN"]), (["a"], ["a_b", "b"]), (["b_c", "c"], ["q"])])
@@ -93,6 +93,11 @@ def _cmp(result, exp_cd, what, fails, check_io=True):
         return
     if check_io and (result.inputs() != exp.inputs() or result.outputs() != exp.outputs()):
         fails.append({"kind": f"{what}-io-lists", "msg": f"inputs {sorted(result.inputs())} vs {sorted(exp.inputs())}; outputs {sorted(result.outputs())} vs {sorted(exp.outputs())}"})
+    # a renamed COPY: every node keeps its type (child inputs become buffers), in particular carried-over blackbox pins stay pins
+    tdiff = [(n, result.graph.nodes[n].get("type"), exp.graph.nodes[n].get("type")) for n in sorted(exp.graph.nodes)
+             if result.graph.nodes[n].get("type") != exp.graph.nodes[n].get("type")]
+    if tdiff:
+        fails.append({"kind": f"{what}-node-types", "msg": f"(node, got, expected): {tdiff[:4]}"})
     rb = {k: (b.name, frozenset(b.inputs()), frozenset(b.outputs())) for k, b in result.blackboxes.items()}
     eb = {k: (b.name, frozenset(b.inputs()), frozenset(b.outputs())) for k, b in exp.blackboxes.items()}
     if rb != eb:
